@@ -26,6 +26,7 @@ fn main() {
     t2n_verif::core::install_panic_hook();
     let prop = args[1].clone();
     let verif_dir = std::env::var("VERIF_DIR").unwrap_or_else(|_| "/verif".to_string());
+    let out_dir = std::env::var("VERIF_OUT_DIR").unwrap_or_else(|_| verif_dir.clone());
     let threads = env_u64("VERIF_THREADS", std::thread::available_parallelism().map(|n| n.get() as u64).unwrap_or(4)) as usize;
     let seed = env_u64("VERIF_SEED", 1);
     let scale = env_f64("VERIF_SCALE", 1.0);
@@ -45,7 +46,7 @@ fn main() {
                 std::process::exit(2);
             }
         };
-        let ctx = Ctx { prop: prop.clone(), tier: Tier::Quick, seed, threads, verif_dir, scale, start: Instant::now(), budget_s: 60.0 };
+        let ctx = Ctx { prop: prop.clone(), tier: Tier::Quick, seed, threads, verif_dir, out_dir: out_dir.clone(), scale, start: Instant::now(), budget_s: 60.0 };
         let fails = monitors::replay(&ctx, &case);
         if fails.is_empty() {
             println!("REPLAY property={} passes now", prop);
@@ -67,7 +68,7 @@ fn main() {
         }
     };
     let budget_s = env_f64("VERIF_BUDGET_S", if tier == Tier::Quick { 40.0 } else { 420.0 });
-    let ctx = Ctx { prop, tier, seed, threads, verif_dir, scale, start: Instant::now(), budget_s };
+    let ctx = Ctx { prop, tier, seed, threads, verif_dir, out_dir: out_dir.clone(), scale, start: Instant::now(), budget_s };
     // a panic inside a monitor is a harness error, never a verdict
     let res = std::panic::catch_unwind(|| monitors::run(&ctx));
     match res {
